@@ -87,7 +87,8 @@ class C18Bounded(Bounded):
         # native expression: normalised values of the parsed network; invalid strings rejected
         class B(TextQueryTestBackend):
             cidr_expression = "{field}|{value}|{network}|{prefixlen}|{netmask}"
-        for spelling in ["10.0.0.0/255.0.0.0", "172.16.5.4", "192.168.1.0/24", "2001:DB8::/32", "2001:0db8:0000::/48", "10.0.0.0/0.255.255.255", "2001:db8::", "fe80::", "::", "::1", "fe80::1:2:3:4"]:
+        for spelling in ["10.0.0.0/255.0.0.0", "172.16.5.4", "192.168.1.0/24", "2001:DB8::/32", "2001:0db8:0000::/48", "10.0.0.0/0.255.255.255", "2001:db8::", "fe80::", "::", "::1", "fe80::1:2:3:4",
+                         "64:ff9b::10.0.0.0/104", "::ffff:10.0.0.0/104", "2001:db8::192.0.2.0/120", "::10.1.2.3", "::ffff:1.2.3.4/128", "1:2:3:4:5:6:7.8.9.0/120", "192.168.1.7/32", "0.0.0.0/0", "::/0"]:
             ev += 1
             nontriv += 1
             n = ipaddress.ip_network(spelling)
